@@ -25,6 +25,7 @@ type Scenario struct {
 	MapBase string       `json:"map_base,omitempty"`
 	ChSeed  uint64       `json:"chooser_seed"`
 	Phase2  *Phase2Spec  `json:"phase2,omitempty"` // single graph only: after a clean first Run, extend the graph and Run it again
+	Phase3  *Phase2Spec  `json:"phase3,omitempty"` // ... and once more after a clean second Run
 	Family  string       `json:"family,omitempty"` // graph shape family / sweep tag (informational)
 	Mode    string       `json:"mode,omitempty"`   // canonical | permuted | wild
 }
@@ -34,6 +35,18 @@ type Scenario struct {
 type Phase2Spec struct {
 	Build  []Call `json:"build"`
 	MaxPar int    `json:"max_par,omitempty"` // >0: SetMaxParallel(MaxPar) before the second Run
+}
+
+// ExtraPhases lists the phases after the first Run, in order.
+func (sc *Scenario) ExtraPhases() []*Phase2Spec {
+	var out []*Phase2Spec
+	if sc.Phase2 != nil {
+		out = append(out, sc.Phase2)
+		if sc.Phase3 != nil {
+			out = append(out, sc.Phase3)
+		}
+	}
+	return out
 }
 
 type TaskSpec struct {
@@ -73,6 +86,9 @@ func (c Call) String() string {
 		return s
 	case "dep":
 		s := fmt.Sprintf("TaskDependsOn(t%02d", c.T)
+		if c.Via == "graph" {
+			s = fmt.Sprintf("TaskDependsOn(g.Task(\"t%02d\")", c.T)
+		}
 		for _, d := range c.Deps {
 			s += fmt.Sprintf(", t%02d", d)
 		}
@@ -131,9 +147,11 @@ func (sc *Scenario) ModelFor(g int) *Model { return sc.ModelForPhase(g, 1) }
 func (sc *Scenario) ModelForPhase(g, phase int) *Model {
 	m := &Model{Exists: make([]bool, sc.N), Deps: make([][]int, sc.N), Retries: make([]int, sc.N)}
 	hasEdge := make([]bool, sc.N)
-	calls := sc.Build
-	if phase == 2 && sc.Phase2 != nil {
-		calls = append(append([]Call(nil), sc.Build...), sc.Phase2.Build...)
+	calls := append([]Call(nil), sc.Build...)
+	for pi, ph := range sc.ExtraPhases() {
+		if pi+2 <= phase {
+			calls = append(calls, ph.Build...)
+		}
 	}
 	for _, c := range calls {
 		if c.Only != 0 && c.Only != g+1 {
@@ -153,6 +171,10 @@ func (sc *Scenario) ModelForPhase(g, phase int) *Model {
 			}
 			m.Exists[c.T] = true
 		case "dep":
+			if c.Via == "graph" && !m.Exists[c.T] {
+				m.DefErrors += 2 // g.Task(id): not found; TaskDependsOn with the returned empty task: no function
+				continue
+			}
 			m.Exists[c.T] = true
 			for _, d := range c.Deps {
 				m.Exists[d] = true
@@ -170,6 +192,10 @@ func (sc *Scenario) ModelForPhase(g, phase int) *Model {
 				hasEdge[c.T], hasEdge[d] = true, true
 			}
 		case "retries":
+			if c.Via == "graph" && !m.Exists[c.T] {
+				m.DefErrors += 2
+				continue
+			}
 			m.Exists[c.T] = true
 			m.Retries[c.T] = c.R
 		case "lookup":
@@ -432,6 +458,23 @@ func buildCalls(r *simrt.RNG, n int, deps [][]int, retries []int, mode string, m
 		copy(calls[pos+1:], calls[pos:])
 		calls[pos] = c
 	}
+	// the dependent / retried task obtained from the graph itself (g.Task(id)) instead of the caller's variable
+	seen := make([]bool, n)
+	for i := range calls {
+		c := &calls[i]
+		if (c.Op == "dep" || c.Op == "retries") && c.Via == "" {
+			if (seen[c.T] && r.Intn(7) == 0) || (mode == "wild" && r.Intn(40) == 0) {
+				c.Via = "graph"
+			}
+		}
+		switch c.Op {
+		case "add", "dep", "retries":
+			seen[c.T] = true
+			for _, d := range c.Deps {
+				seen[d] = true
+			}
+		}
+	}
 	// read-only API calls in the middle of the construction (state reused across calls must not go stale)
 	for k := r.Intn(3); k > 0 && r.Intn(2) == 0; k-- {
 		ins(Call{Op: []string{"dfs", "dfs", "validate", "string"}[r.Intn(4)]})
@@ -637,46 +680,56 @@ func Generate(seed uint64, o GenOpts) *Scenario {
 			}
 		}
 		sc.Cancel.Kind = "none"
-		old := sc.N
-		nnew := 1 + r.Intn(4)
-		if old+nnew > 14 {
-			nnew = 14 - old
-		}
-		p2 := &Phase2Spec{}
-		for j := 0; j < nnew; j++ {
-			id := old + j
-			ret := []int{0, 0, 1, 2}[r.Intn(4)]
-			ts := TaskSpec{Attempts: genAttempts(r, ret, faulty, faultP, sc.Buffer, false)}
-			ts.Attempts = append(ts.Attempts, AttemptSpec{Res: "err", Dur: 1})
-			sc.Tasks = append(sc.Tasks, ts)
-			var ds []int
-			for d := 0; d < id; d++ {
-				if r.Intn(3) == 0 {
-					ds = append(ds, d)
+		genPhase := func() *Phase2Spec {
+			old := sc.N
+			nnew := 1 + r.Intn(4)
+			if old+nnew > 15 {
+				nnew = 15 - old
+			}
+			if nnew < 1 {
+				nnew = 1
+			}
+			p2 := &Phase2Spec{}
+			for j := 0; j < nnew; j++ {
+				id := old + j
+				ret := []int{0, 0, 1, 2}[r.Intn(4)]
+				ts := TaskSpec{Attempts: genAttempts(r, ret, faulty, faultP, sc.Buffer, false)}
+				ts.Attempts = append(ts.Attempts, AttemptSpec{Res: "err", Dur: 1})
+				sc.Tasks = append(sc.Tasks, ts)
+				var ds []int
+				for d := 0; d < id; d++ {
+					if r.Intn(3) == 0 {
+						ds = append(ds, d)
+					}
+				}
+				if len(ds) == 0 || r.Intn(3) == 0 {
+					p2.Build = append(p2.Build, Call{Op: "add", T: id})
+				}
+				if ret != 0 {
+					p2.Build = append(p2.Build, Call{Op: "retries", T: id, R: ret})
+				}
+				if len(ds) > 0 {
+					p2.Build = append(p2.Build, Call{Op: "dep", T: id, Deps: ds})
 				}
 			}
-			if len(ds) == 0 || r.Intn(3) == 0 {
-				p2.Build = append(p2.Build, Call{Op: "add", T: id})
+			sc.N = old + nnew
+			if r.Intn(4) == 0 {
+				p2.MaxPar = 1 + r.Intn(2)
 			}
-			if ret != 0 {
-				p2.Build = append(p2.Build, Call{Op: "retries", T: id, R: ret})
+			if r.Intn(5) == 0 { // a cycle through a vertex that completed in the first run
+				a, c := r.Intn(old), old+r.Intn(nnew)
+				p2.Build = append(p2.Build, Call{Op: "dep", T: c, Deps: []int{a}}, Call{Op: "dep", T: a, Deps: []int{c}})
 			}
-			if len(ds) > 0 {
-				p2.Build = append(p2.Build, Call{Op: "dep", T: id, Deps: ds})
+			if r.Intn(3) == 0 { // re-add of an old task and read-only calls in between
+				p2.Build = append(p2.Build, Call{Op: "add", T: r.Intn(old)}, Call{Op: "dfs"})
 			}
+
+			return p2
 		}
-		sc.N = old + nnew
-		if r.Intn(4) == 0 {
-			p2.MaxPar = 1 + r.Intn(2)
+		sc.Phase2 = genPhase()
+		if r.Intn(100) < 40 && sc.N < 14 {
+			sc.Phase3 = genPhase()
 		}
-		if r.Intn(5) == 0 { // a cycle through a vertex that completed in the first run
-			a, c := r.Intn(old), old+r.Intn(nnew)
-			p2.Build = append(p2.Build, Call{Op: "dep", T: c, Deps: []int{a}}, Call{Op: "dep", T: a, Deps: []int{c}})
-		}
-		if r.Intn(3) == 0 { // re-add of an old task and read-only calls in between
-			p2.Build = append(p2.Build, Call{Op: "add", T: r.Intn(old)}, Call{Op: "dfs"})
-		}
-		sc.Phase2 = p2
 	}
 	// Two graphs: sometimes one id is represented by two distinct *Task objects (same ID and
 	// behaviour). g1 is given the alternate object, g0 first the primary one and later, through a
